@@ -481,9 +481,12 @@ func explore(t *testing.T, p *Prop, tier string) {
 // minimise shrinks the two tape streams while the same violation class persists.
 func minimise(t *testing.T, p *Prop, tier string, scen, dyn []uint32, class string, budget int) ([]uint32, []uint32, int, *Outcome) {
 	reruns := 0
+	research := budget / 2
+	deadline := time.Now().Add(time.Duration(envInt("VSIM_MIN_WALL_S", 25)) * time.Second)
 	var lastOut *Outcome
+	stopped := func() bool { return reruns >= budget || time.Now().After(deadline) }
 	try := func(s, d []uint32) ([]uint32, []uint32, bool) {
-		if reruns >= budget {
+		if stopped() {
 			return nil, nil, false
 		}
 		reruns++
@@ -525,11 +528,29 @@ func minimise(t *testing.T, p *Prop, tier string, scen, dyn []uint32, class stri
 				improved = true
 				return true
 			}
+			if !ok && which == 0 && research > 0 {
+				// a simpler scenario may need a different schedule: look for one
+				for k := 0; k < 6 && research > 0 && reruns < budget && time.Now().Before(deadline); k++ {
+					research--
+					reruns++
+					tp := rt.NewMixedTape(s, uint64(reruns)*7919+uint64(k))
+					r := runOne(t, p, tp, tier, false, 0)
+					if r.infra == "" && r.out != nil && r.out.Class == class {
+						ns, nd := trimZeros(tp.EffScen), trimZeros(tp.EffDyn)
+						if len(ns) < len(scen) || sum(ns) < sum(scen) {
+							lastOut = r.out
+							scen, dyn = ns, nd
+							improved = true
+							return true
+						}
+					}
+				}
+			}
 			return false
 		}
 		// 1. truncate (binary search on length)
 		lo, hi := 0, len(get())
-		for lo < hi && reruns < budget {
+		for lo < hi && !stopped() {
 			mid := (lo + hi) / 2
 			if attempt(append([]uint32(nil), get()[:mid]...)) {
 				hi = len(get())
@@ -541,8 +562,11 @@ func minimise(t *testing.T, p *Prop, tier string, scen, dyn []uint32, class stri
 			}
 		}
 		// 2. delete blocks / zero blocks
-		for _, bs := range []int{64, 16, 8, 4, 2, 1} {
-			for i := 0; i+bs <= len(get()) && reruns < budget; {
+		for _, bs := range []int{4096, 512, 64, 16, 8, 4, 2, 1} {
+			if bs > len(get()) {
+				continue
+			}
+			for i := 0; i+bs <= len(get()) && !stopped(); {
 				cur := get()
 				c := append(append([]uint32(nil), cur[:i]...), cur[i+bs:]...)
 				if attempt(c) {
@@ -568,13 +592,13 @@ func minimise(t *testing.T, p *Prop, tier string, scen, dyn []uint32, class stri
 			}
 		}
 		// 3. lower single cells
-		for i := 0; i < len(get()) && reruns < budget; i++ {
+		for i := 0; i < len(get()) && !stopped(); i++ {
 			cur := get()
 			if i >= len(cur) || cur[i] == 0 {
 				continue
 			}
 			lo, hi := uint32(0), cur[i]
-			for lo < hi && reruns < budget {
+			for lo < hi && !stopped() {
 				mid := lo + (hi-lo)/2
 				c := append([]uint32(nil), get()...)
 				if i >= len(c) {
@@ -590,7 +614,7 @@ func minimise(t *testing.T, p *Prop, tier string, scen, dyn []uint32, class stri
 		}
 		return improved
 	}
-	for pass := 0; pass < 4 && reruns < budget; pass++ {
+	for pass := 0; pass < 6 && !stopped(); pass++ {
 		a := shrinkStream(1)
 		b := shrinkStream(0)
 		if !a && !b {
